@@ -10,6 +10,7 @@
 #include <cerrno>
 #include <dlfcn.h>
 #include <pthread.h>
+#include <signal.h>
 #include <sched.h>
 #include <sys/syscall.h>
 #include <unistd.h>
@@ -134,8 +135,13 @@ void *trampoline(void *p) {
     delete static_cast<Tramp *>(p);
     adoptRecord(tr.rec);
     ThreadRec *t = self();
+    // crash lines must survive a stack overflow on this thread too (see rt::installCrashHandlers)
+    const size_t altSize = 64 * 1024;
+    char *alt = (char *) malloc(altSize);
+    if (alt) { stack_t ss{}; ss.ss_sp = alt; ss.ss_size = altSize; sigaltstack(&ss, nullptr); }
     maybeDelay(t, gDelays.threadStart, gDelays.threadStartMaxUs, gCounters.threadStart);
     void *r = tr.fn(tr.arg);
+    if (alt) { stack_t ss{}; ss.ss_flags = SS_DISABLE; sigaltstack(&ss, nullptr); free(alt); }
     t->park.store(None);
     t->finished.store(1);
     return r;
